@@ -43,6 +43,10 @@ ASSUMPTIONS = ["forms affine in their highest-numbered argument and linear in th
 EXPLANATION = "lhs/rhs/functional are the homogeneous parts, action/energy_norm substitutions and adjoint the conjugate swap, for all terminal values."
 
 
+# forms that lhs / rhs / system / functional must ACCEPT (well-formed affine forms; a refusal of these is not a legitimate precondition failure)
+MUST_ACCEPT = ("mixed space with vector and tensor parts",)
+
+
 def build(run):
     tmo = 20000
     for nm in ("expr", "variable", "argument", "sum", "product", "division", "linear_operator", "linear_indexed_type", "list_tensor"):
@@ -64,6 +68,10 @@ def build(run):
     S2 = ufl.FunctionSpace(tri, E.LagrangeElement(cell, 2))
     W = ufl.MixedFunctionSpace(S, S2, S)
     (mv0, mv1, mv2), (mu0, mu1, mu2) = ufl.TestFunctions(W), ufl.TrialFunctions(W)
+    # a mixed function space with a VECTOR-valued and a tensor-valued part (Stokes-like systems)
+    T2 = ufl.FunctionSpace(tri, E.LagrangeElement(cell, 1, (2, 2)))
+    Wv = ufl.MixedFunctionSpace(V, S, T2)
+    (wv0, wq, wt), (wu0, wp, ws) = ufl.TestFunctions(Wv), ufl.TrialFunctions(Wv)
 
     def world(complex_mode=False, scale=None, subst=None, swap=False):
         """scale: {argument number: 0/1}; subst: {argument number: coefficient}; swap: exchange argument numbers 0 and 1"""
@@ -137,6 +145,9 @@ def build(run):
         ("variable around the whole integrand", lambda: ufl.variable(u * v) * dx - ufl.variable(f * v) * dx + ufl.variable(f * g) * dx),
         ("variable inside grad", lambda: inner(grad(ufl.variable(f * u)), grad(v)) * dx - ufl.variable(f) * v * ds),
         # arguments with parts (MixedFunctionSpace): the form is split into blocks first; restrictions, jumps and averages wrapping sums over several parts
+        ("mixed space with vector and tensor parts: stokes + rhs", lambda: (inner(grad(wu0), grad(wv0)) - wp * ufl.div(wv0) + ufl.div(wu0) * wq + dot(w_, wv0) + g * wq) * dx),
+        ("mixed space with vector and tensor parts: tensor block", lambda: (inner(ws, wt) + inner(grad(wu0), wt) + wp * wq - inner(ufl.outer(w_, w_), wt) - f * wq) * dx + dot(wu0, wv0) * ds),
+        ("mixed space with vector and tensor parts: only linear", lambda: (dot(w_, wv0) + f * ufl.tr(wt)) * dx),
         ("mixed space: volume terms", lambda: (mu0 * mv0 + mu1 * mv1 + grad(mu2)[0] * mv0 - f * mv1 - g * mv2) * dx),
         ("mixed space: separate restrictions", lambda: mu0("+") * mv0("+") * dS + mu1("-") * mv0("+") * dS - f("+") * mv1("+") * dS),
         ("mixed space: restricted sum of parts", lambda: (mu0 + mu1)("+") * mv0("+") * dS + mu2("-") * mv1("-") * dS - (f * mv0 + g * mv2)("+") * dS),
@@ -154,6 +165,8 @@ def build(run):
             except ValueError as ex:
                 if not deliberate(ex):
                     return violated(f"crash instead of a result or a refusal: {crash_text(ex)}", reproduced=True, backend="exec")
+                if fname.startswith(MUST_ACCEPT):
+                    return violated(f"lhs({fname}) refuses a well-formed affine form: {ex}", replay={"form": fname, "error": str(ex)}, reproduced=True, backend="exec")
                 return proved("refused", sample=f"lhs refuses: {ex}"[:200])
             return check_form(world(), L, lambda w, key: N.add(N.sub(N.sub(P(w, Fe, key, 1, 1), P(w, Fe, key, 1, 0)), P(w, Fe, key, 0, 1)), P(w, Fe, key, 0, 0)),
                               [Fe], f"lhs({fname})", tmo)
@@ -168,6 +181,8 @@ def build(run):
             except ValueError as ex:
                 if not deliberate(ex):
                     return violated(f"crash instead of a result or a refusal: {crash_text(ex)}", reproduced=True, backend="exec")
+                if fname.startswith(MUST_ACCEPT):
+                    return violated(f"rhs({fname}) refuses a well-formed affine form: {ex}", replay={"form": fname, "error": str(ex)}, reproduced=True, backend="exec")
                 return proved("refused", sample=f"rhs refuses: {ex}"[:200])
             return check_form(world(), R, lambda w, key: N.neg(N.sub(P(w, Fe, key, 1, 0), P(w, Fe, key, 0, 0))), [Fe], f"rhs({fname})", tmo)
         run.add(f"rhs/{fname}", rhs_ob, kind="values")
@@ -181,6 +196,8 @@ def build(run):
             except ValueError as ex:
                 if not deliberate(ex):
                     return violated(f"crash instead of a result or a refusal: {crash_text(ex)}", reproduced=True, backend="exec")
+                if fname.startswith(MUST_ACCEPT):
+                    return violated(f"system({fname}) refuses a well-formed affine form: {ex}", replay={"form": fname, "error": str(ex)}, reproduced=True, backend="exec")
                 return proved("refused", sample=f"system refuses: {ex}"[:200])
             LR = (L if L != 0 else None, R if R != 0 else None)
 
@@ -225,6 +242,8 @@ def build(run):
             except ValueError as ex:
                 if not deliberate(ex):
                     return violated(f"crash instead of a result or a refusal: {crash_text(ex)}", reproduced=True, backend="exec")
+                if fname.startswith(MUST_ACCEPT):
+                    return violated(f"functional({fname}) refuses a well-formed affine form: {ex}", replay={"form": fname, "error": str(ex)}, reproduced=True, backend="exec")
                 return proved("refused", sample=f"functional refuses: {ex}"[:200])
             return check_form(world(), Z, lambda w, key: P(w, Fe, key, 0, 0), [Fe], f"functional({fname})", tmo)
         run.add(f"functional/{fname}", fun_ob, kind="values")
